@@ -400,7 +400,7 @@ void FN(gm_ProcessEvent)(uint64_t me, double now, unsigned type, const void *con
 		for(unsigned i = 0; i < g->init_sends; i++) {
 			uint64_t r = sm(&s->prng);
 			unsigned ntype = (unsigned)(r & 7) | (unsigned)(((r >> 3) & 3) << 3);
-			double t = (r >> 8) % 3 == 0 ? 0.0 : g->time_mode == 1 ? (double)(1 + ((r >> 10) & 1)) : (double)((r >> 11) & 0xfffff) * 0x1p-20;
+			double t = g->init_zero || (r >> 8) % 3 == 0 ? 0.0 : g->time_mode == 1 ? (double)(1 + ((r >> 10) & 1)) : (double)((r >> 11) & 0xfffff) * 0x1p-20;
 			unsigned char p8[8];
 			memcpy(p8, &r, 8);
 			unsigned psz = g->payload_mode ? (unsigned)((r >> 40) % 9) : 0;
